@@ -252,11 +252,13 @@ def run(ck, facts, tier):
             ck.violation(R, "goal-shape", ob.where(), "the orphan goal must be the closed `forall<..> LocalImplAllowed(trait_ref)`")
         cfg = ob.cfg
         errs = [b for b, j, st in cfg.agg_sites("chalk_solve::coherence::CoherenceError", "FailedOrphanCheck")]
-        edges = cfg.bool_edges(trace_is_call("Option::is_some"), want=False)
+        # the solver's verdict: `solve(..).is_some()` tested, or the Option matched directly
+        is_solve = lambda tr: tr.get("of", {}).get("kind") == "call" and callee_matches(tr["of"]["call"], "Solver::solve")
+        edges = cfg.bool_edges(trace_is_call("Option::is_some"), want=False) + cfg.variant_edges(is_solve, ["None"])
         n = guard_sites(ck, R, ob, errs, edges, "Err(FailedOrphanCheck)", "!solve(..).is_some()")
         ck.floor(R, "error-sites", n, 1)
         # and no other path returns Err / the true edge does not reach the error
-        t_edges = cfg.bool_edges(trace_is_call("Option::is_some"), want=True)
+        t_edges = cfg.bool_edges(trace_is_call("Option::is_some"), want=True) + cfg.variant_edges(is_solve, ["Some"])
         if errs and t_edges and all(e not in cfg.reachable(t_edges[0][1]) for e in errs):
             ck.ok(R, "allowed-path-returns-ok")
         else:
